@@ -21,6 +21,7 @@ pub mod yaml_gen;
 pub mod checkvar;
 pub mod editdoc;
 pub mod convert_case;
+pub mod verify;
 
 pub struct Ctx {
   pub seed: u64,
@@ -61,6 +62,7 @@ pub fn run(unit: &str, ctx: &Ctx, rng: &mut Rng, o: &mut Out) -> bool {
     "c13_process" => c13proj::process(ctx, rng, o),
     "navigation" => navigation::navigation(ctx, rng, o),
     "replace_all" => navigation::replace_all_unit(ctx, rng, o),
+    "verify_run" => verify::verify_run(ctx, rng, o),
     "frontends_edit" => frontends::frontends_edit(ctx, rng, o),
     "frontends_findings" => frontends::frontends_findings(ctx, rng, o),
     "read_file" => worker::read_file(ctx, rng, o),
@@ -128,6 +130,9 @@ pub fn exec_op(op: &str, a: &serde_json::Value) -> serde_json::Value {
     return v;
   }
   if let Some(v) = convert_case::exec(op, a) {
+    return v;
+  }
+  if let Some(v) = verify::exec(op, a) {
     return v;
   }
   serde_json::json!({"harness_error": format!("op {op} is not replayable stand-alone")})
